@@ -125,7 +125,12 @@ def collapsePost (reload : Bytes → Option Testcase) (o : Oracle) (it : It) : I
     (it.try o newTc (fun r => { tag := 3, lo := 0, hi := 0, size := 0, bestLen := 0, base := it.best,
                                 tIdx := it.nTests, cand := newTc, resp := r })).2
 
-def collapseFuel (t : Testcase) : Nat := (t.len + 2) * (t.len + Nat.log2 (t.len + 1) + 6) + 8
+/-- fuel for the loop with the brace collapse: the re-load of a collapsed text can have MORE atoms
+than the testcase it replaces (recorded finding `collapse-regrows-atoms`), but never more than the file
+has bytes — atoms are non-empty and collapsing never adds a byte (`collapse_bound`) -/
+def collapseFuel (t : Testcase) : Nat :=
+  let b := t.content.length
+  (b + 2) * (b + Nat.log2 (b + 1) + 6) + 8
 
 /-- `CollapseEmptyBraces.reduce` for a given splitter (`reload`) -/
 def collapse (reload : Bytes → Option Testcase) (cfg : Cfg) (o : Oracle) (clk : Clock) (t : Testcase) : It :=
